@@ -105,7 +105,9 @@ def run(rep, tier, seed, replay):
         r = random.Random(seed * 7 + 18)
         fam = [("a", limit // 2 - 5), ("a", limit // 2 + 300), ("a", limit - 1), ("a", limit), ("a", limit + 4000),
                ("[01](L)*?,", (limit // 2 + 3000) // 10), ("ab/", (limit - 10) // 3), ("左{}右*中*", (limit - 200) // 15),
-               ("é/", limit // 3 - 1), ("é/", limit // 3 + 1)]
+               ("é/", limit // 3 - 1), ("é/", limit // 3 + 1),
+               # characters whose case mappings are longer in UTF-8 than they are: the size is that of the TEXT
+               ("Ⱥ", limit // 2 - 8), ("ΐ", limit // 2 - 8), ("ŉx", limit // 3 - 8), ("ǰ", limit // 2 - 8), ("ﬃ", limit // 3 - 8), ("Ⱥ/ΐ", limit // 5 - 8)]
         for _ in range(4 if tier == "quick" else 40):
             unit = "".join(r.choice(ALPHA) for _ in range(r.randint(1, 6))).replace("//", "/").strip("/") or "a"
             if "\\" in unit:
